@@ -14,6 +14,12 @@ func runConc(seed int64, run int, size string, timeout time.Duration) ([]Line, b
 	if size == "lag" {
 		return runLag(seed, run, timeout)
 	}
+	if size == "deep" {
+		return runDeep(300, run, timeout)
+	}
+	if size == "deep2" {
+		return runDeep(600, run, timeout)
+	}
 	rng := rand.New(rand.NewSource(seed*100003 + int64(run)))
 	nPub, perPub, maxSubs, nMgr := 2+rng.Intn(2), 2+rng.Intn(3), 5, 2
 	if size == "big" {
